@@ -78,8 +78,12 @@ def oracle_fill(system, cols, vals, T, outcome, kw=None):
     return fails
 
 
-def run_elastdata(system, T, supplied):
-    """apply_symetry_on_elast_data on an ElastData built from the supplied components."""
+DEFAULT_SYMMETRY_BLOCK = {"ignore_residuals": False, "ignore_rank": False, "drop_atol": 1.0e-8, "residual_atol": 0.1}   # documented defaults
+
+
+def run_elastdata(system, T, supplied, full_block=False):
+    """apply_symetry_on_elast_data on an ElastData built from the supplied components; `full_block`: the symmetry block as the
+    Calculator passes it (system + the four documented default settings) instead of the bare {"system": ...}."""
     from cij.io.traditional.elast_dat import ElastData, ElastVolumeData, apply_symetry_on_elast_data
     from cij.util import c_
     vols = []
@@ -87,7 +91,7 @@ def run_elastdata(system, T, supplied):
         vols.append(ElastVolumeData(100.0 + r, dict((c_(fc.SYMS[i][1:]), float(T[r, i])) for i in supplied)))
     data = ElastData(100.0, T.shape[0], 10.0, vols, [])
     try:
-        apply_symetry_on_elast_data(data, {"system": system})
+        apply_symetry_on_elast_data(data, dict(DEFAULT_SYMMETRY_BLOCK, system=system) if full_block else {"system": system})
     except BaseException as e:
         if isinstance(e, (KeyboardInterrupt, SystemExit)): raise
         return {"status": fc.classify(e)}
@@ -206,7 +210,27 @@ def run(ctx: Ctx) -> Result:
             for what, obs, exp in fails:
                 res.oracle_failures.append(OracleFailure(what="apply_symetry_on_elast_data: " + what, input=payload,
                                                          observed=obs, expected=exp, site=f"c08:elastdata:{system}"))
+    # the same entry point on tables in other units (TPa, Mbar: all values well below 1) and with one weak but genuine component
+    # (|c| between 1e-5 and 0.09 at every volume), with the bare and with the full settings block: the filling must neither drop
+    # nor move them — only components below the drop tolerance (1e-8) at all volumes may be omitted
+    n_small = 0
+    for system in fc.SYSTEMS:
+        mins = fc.minimal_sufficient_subsets(system)
+        for rep in range(2 if ctx.thorough() else 1):
+            S = mins[int(rng.integers(0, len(mins)))]
+            T = fc.random_invariant(system, int(rng.integers(1, 5)), rng) * float(10.0 ** rng.uniform(-4.0, -2.5))
+            full_block = bool((rep + n_small) % 2)
+            out = run_elastdata(system, T, S, full_block=full_block)
+            res.evaluations += 1; n_small += 1
+            cols, vals = build_case(system, T, S, False, rng)
+            payload = {"check": "elastdata", "system": system, "supplied": list(S), "tensor": T.tolist(), "full_block": full_block}
+            fails = oracle_fill(system, cols, vals, T, out)
+            if not fails: res.traces_validated += 1
+            for what, obs, exp in fails[:2]:
+                res.oracle_failures.append(OracleFailure(what="apply_symetry_on_elast_data (small values): " + what, input=payload,
+                                                         observed=obs, expected=exp, site=f"c08:elastdata-small:{system}"))
     res.distribution["apply_symetry_on_elast_data_cases"] = n_el
+    res.distribution["apply_symetry_on_elast_data_small_value_cases"] = n_small
     res.notes.append("all minimal sufficient subsets of all nine systems are exercised in every tier (314 subsets)")
     return res
 
@@ -232,7 +256,7 @@ def replay(ctx: Ctx, payload):
     system = payload["system"]
     if payload.get("check") == "elastdata":
         S = payload["supplied"]
-        out = run_elastdata(system, T, S)
+        out = run_elastdata(system, T, S, full_block=bool(payload.get("full_block")))
         cols, vals = build_case(system, T, S, False, None)
     else:
         cols, vals = payload["columns"], payload["values"]
